@@ -344,24 +344,30 @@ impl Num for AbsF {
     }
 }
 
-/// Entries whose magnitude is below this fraction of the sum of the magnitudes of their
-/// terms are pure cancellation noise of the f64 contraction and are reported as exact 0
-/// (otherwise a diagram that denotes 0 would be compared at the scale of its - possibly
-/// huge - stored scalar times 1e-16). A discrepancy below that level is beyond what the
-/// float pool can decide anyway; the exact pool has no such blind spot.
-pub const CANCELLATION_FLOOR: f64 = 1e-11;
+/// Relative rounding error assumed per unit of "sum of the magnitudes of all terms" in the
+/// f64 contraction (about 50 ulp: the contraction performs a few dozen dependent
+/// operations per term).
+pub const NOISE_PER_MAGNITUDE: f64 = 1e-14;
 
 /// Floating-point tensor of a diagram times `scalar`.
 pub fn eval_float(d: &Diag, scalar: Cf) -> Result<Vec<Cf>, EvalError> {
+    Ok(eval_float_noise(d, scalar)?.0)
+}
+
+/// Floating-point tensor of a diagram times `scalar`, together with an estimate of the
+/// absolute cancellation noise of its entries: the same contraction is repeated with every
+/// factor replaced by its absolute value, which gives per entry the sum of the magnitudes of
+/// all terms; the f64 result cannot be trusted below NOISE_PER_MAGNITUDE times that sum
+/// (times |scalar|). Without this a diagram that denotes exactly 0 but carries a stored
+/// scalar of 1e20 would be compared at the scale 1e20 * 1e-16.
+pub fn eval_float_noise(d: &Diag, scalar: Cf) -> Result<(Vec<Cf>, f64), EvalError> {
     let raw = eval_raw::<Cf>(d)?;
     let mag = eval_raw::<AbsF>(d)?;
-    let f = scalar * std::f64::consts::SQRT_2.powi(-(raw.sqrt2_neg as i32));
-    Ok(raw
-        .entries
-        .iter()
-        .zip(mag.entries.iter())
-        .map(|(z, m)| if z.norm() <= CANCELLATION_FLOOR * m.0 { Cf::new(0.0, 0.0) } else { z * f })
-        .collect())
+    let s2 = std::f64::consts::SQRT_2.powi(-(raw.sqrt2_neg as i32));
+    let f = scalar * s2;
+    let mmax = mag.entries.iter().map(|m| m.0).fold(0.0f64, f64::max);
+    let noise = NOISE_PER_MAGNITUDE * mmax * s2 * scalar.norm();
+    Ok((raw.entries.iter().map(|z| z * f).collect(), noise))
 }
 
 /// Tensor of a diagram whose phases are all multiples of pi/4, times a scalar that is only
